@@ -303,7 +303,7 @@ def parseSpecToks (toks : List Tok) : Except ParseErr PSpec := do
     | .specification :: .ident n :: rest => (some n, rest)
     | _ => (none, toks)
   let (decls, r1) ← parseDecls fuel toks.length r0 []
-  let asserts ← parseAsserts fuel toks.length r1 []
+  let asserts ← parseAsserts fuel (toks.length + 1) r1 []
   pure { name := name, decls := decls, asserts := asserts }
 
 /-- `AbstractAst.parse`: a final `;` is appended when missing; lexer errors and syntax errors
